@@ -564,6 +564,12 @@ func (b *BlockWise[C]) continueSendingMessage(w *responsewriter.ResponseWriter[C
 	var sendMessage *pool.Message
 	var more bool
 	b.sendingMessagesCache.LoadWithFunc(string(r.Token()), func(value *cache.Element[*pool.Message]) *cache.Element[*pool.Message] {
+		// the transfer timeout limits the time between two blocks, not the whole transfer (as on the receiving
+		// side): a message that is kept for the transfer timeout - not until the deadline of its context, not
+		// for as long as a call runs - stays for another period with every block the peer fetches
+		if _, hasDeadline := value.Data().Context().Deadline(); !hasDeadline && !value.ValidUntil.Load().IsZero() {
+			value.ValidUntil.Store(time.Now().Add(b.expiration))
+		}
 		sendMessage, more, err = b.createSendingMessage(value.Data(), maxSZX, maxMessageSize, block, true)
 		if err != nil {
 			err = fmt.Errorf("cannot create sending message: %w", err)
